@@ -291,7 +291,7 @@ func nativeReplay(vd, repo string, hs HarnessSpec, vecPath string) (string, stri
 	ov, _ := json.Marshal(map[string]interface{}{"Replace": repl})
 	ovp := filepath.Join(tmp, "overlay.json")
 	os.WriteFile(ovp, ov, 0o644)
-	cmd := exec.Command("go", "test", "-vet=off", "-count=1", "-timeout", "300s", "-overlay", ovp, "-run", "^TestVerifReplay$", "./"+hs.Pkg)
+	cmd := exec.Command("go", "test", "-v", "-vet=off", "-count=1", "-timeout", "300s", "-overlay", ovp, "-run", "^TestVerifReplay$", "./"+hs.Pkg)
 	cmd.Dir = repo
 	cmd.Env = append(os.Environ(), "GOFLAGS=-mod=mod", "GOPROXY=off", "GOSUMDB=off", "GOTOOLCHAIN=local", "VERIF_REPLAY="+vecPath, "GOCACHE="+goCache())
 	var buf bytes.Buffer
